@@ -45,13 +45,18 @@ Repeat == Len(objs) < MaxObjs /\ \E a \in Obj, n \in 0..3 : Step([op |-> "repeat
 Copy == Len(objs) < MaxObjs /\ \E a \in Obj, v \in BOOLEAN : Step([op |-> "copy", a |-> a - 1, vanilla |-> v], objs[a])
 Gate == \E d \in Obj : \E g \in {X(0), T(0), H(objs[d] - 1)} : Step([op |-> "gate", dst |-> d - 1, g |-> g], -1)
 RmId == \E a \in Obj : Step([op |-> "rmid", a |-> a - 1], -1)
+\* ancilla bookkeeping of a QCircuitEnhanced (what every compiled function's circuit is): a new marked ancilla, the
+\* uncomputation of the marked ones.  The harness ends the history when the object is a plain QCircuit.
+Anc == \E d \in Obj : /\ hist' = Append(hist, [op |-> "anc", a |-> d - 1])
+                       /\ objs' = [objs EXCEPT ![d] = @ + 1]
+Unc == \E d \in Obj : Step([op |-> "uncompute", a |-> d - 1], -1)
 QftIqft == \E a \in Obj : \E n \in 1..objs[a] : n <= 4 /\ \E f \in Inj(n, objs[a]) :
               Step([op |-> "qft_iqft", a |-> a - 1, qubits |-> f], -1)
 
 Init == objs = <<>> /\ hist = <<>>
 Next == /\ Len(hist) < MaxOps
         /\ IF Len(objs) = 0 THEN New
-           ELSE (New \/ AppendCircuit \/ IAdd \/ Add \/ Repeat \/ Copy \/ Gate \/ RmId \/ QftIqft)
+           ELSE (New \/ AppendCircuit \/ IAdd \/ Add \/ Repeat \/ Copy \/ Gate \/ RmId \/ QftIqft \/ Anc \/ Unc)
 Spec == Init /\ [][Next]_<<objs, hist>>
 Emit == Len(hist) >= 2 => PrintT(<<"O", ToJson(hist)>>)
 =============================================================================
